@@ -190,6 +190,25 @@ Record lres := { l_outs : list content; l_cyc : bool; l_errs : list lerr; l_amb 
 Definition lres_empty : lres := {| l_outs := [[]]; l_cyc := false; l_errs := []; l_amb := []; l_trig := no_trig |}.
 Definition lres_err (e : lerr) : lres := {| l_outs := [[]]; l_cyc := false; l_errs := [e]; l_amb := []; l_trig := no_trig |}.
 
+(* the set of possible contents is kept small: contents equal as multisets are merged *)
+Definition status_eqb (a b : status) : bool := match a, b with Has, Has | NoRel, NoRel => true | _, _ => false end.
+Fixpoint slist_eqb (a b : list subject) : bool :=
+  match a, b with
+  | [], [] => true
+  | x :: a', y :: b' => subject_eqb x y && slist_eqb a' b'
+  | _, _ => false
+  end.
+Definition found_eqb (a b : found) : bool :=
+  subject_eqb (f_user a) (f_user b) && status_eqb (f_status a) (f_status b) && slist_eqb (f_excl a) (f_excl b).
+Definition fcount (e : found) (R : content) : nat := length (filter (found_eqb e) R).
+Definition content_equiv (a b : content) : bool :=
+  Nat.eqb (length a) (length b) && forallb (fun e => Nat.eqb (fcount e a) (fcount e b)) a.
+Fixpoint cdedup (l : list content) : list content :=
+  match l with
+  | [] => []
+  | c :: l' => if existsb (content_equiv c) l' then cdedup l' else c :: cdedup l'
+  end.
+
 (* all ways of picking one element of every list *)
 Fixpoint cart {A : Type} (ls : list (list A)) : list (list A) :=
   match ls with
@@ -223,7 +242,7 @@ Section Expand.
   (* several sources writing to one channel *)
   Definition merge (here : content) (subs : list lres) (keep_cyc : bool) (cond_err : bool) : lres :=
     let combos := cart (map l_outs subs) in
-    {| l_outs := map (fun cs => here ++ concat cs) combos;
+    {| l_outs := cdedup (map (fun cs => here ++ concat cs) combos);
        l_cyc := keep_cyc && existsb l_cyc subs;
        l_errs := (if cond_err then [LCond] else []) ++ flat_map l_errs subs;
        l_amb := flat_map l_amb subs;
@@ -262,7 +281,7 @@ Section Expand.
           let rs := (fix go (l : list rewrite) : list lres :=
                        match l with [] => [] | x :: l' => expand_rw o x r :: go l' end) l in
           let combos := cart (map l_outs rs) in
-          {| l_outs := map lu_union combos; l_cyc := false;
+          {| l_outs := cdedup (map lu_union combos); l_cyc := false;
              l_errs := flat_map l_errs rs; l_amb := flat_map l_amb rs;
              l_trig := tg_or (tg_all rs)
                          {| tg_race := false; tg_excl_cycle := false;
@@ -272,7 +291,7 @@ Section Expand.
           let rs := (fix go (l : list rewrite) : list lres :=
                        match l with [] => [] | x :: l' => expand_rw o x r :: go l' end) l in
           let combos := cart (map l_outs rs) in
-          {| l_outs := map (lu_inter wkey) combos; l_cyc := false;
+          {| l_outs := cdedup (map (lu_inter wkey) combos); l_cyc := false;
              l_errs := flat_map l_errs rs; l_amb := flat_map l_amb rs;
              l_trig := tg_or (tg_all rs)
                          {| tg_race := false; tg_excl_cycle := false; tg_union := false;
@@ -293,9 +312,9 @@ Section Expand.
                               tg_inter := false; tg_excl := false; tg_merge := false |} |}
           else
             let pairs := flat_map (fun bc => map (fun sc => (bc, sc)) (l_outs rs)) (l_outs rb) in
-            {| l_outs := flat_map (fun p : content * content =>
+            {| l_outs := cdedup (flat_map (fun p : content * content =>
                                      flat_map (fun B => map (fun S => lu_excl wkey B S) (resolve (snd p)))
-                                              (resolve (fst p))) pairs;
+                                              (resolve (fst p))) pairs);
                l_cyc := false;
                l_errs := l_errs rb ++ l_errs rs; l_amb := l_amb rb ++ l_amb rs;
                l_trig := tg_or (tg_or (l_trig rb) (l_trig rs))
